@@ -1,6 +1,7 @@
 import RichModel.Lemmas.SyntaxTraceback
 import RichModel.Lemmas.SyntaxHistory
 import RichModel.Lemmas.SyntaxStyles
+import RichModel.Lemmas.SyntaxMeasure
 /-
 Property C17 — Syntax and tracebacks show the source line for line under the right numbers.
 
@@ -12,7 +13,7 @@ all three are what /repo contains now (`fix:` commits 92fb879, 1d638e8, bc6c38f)
 the variants of rich 9.10.0 as found (`= true`) violate them.  Two further variants exist only to say what the
 history / purity theorems rule out (`renderHistory true`: a source cache that outlives a call; `objRenders true`:
 a highlighted Text remembered on the instance) — no version of rich had them.
-Not part of C17's statement, recorded only: `measure_maximum_one_short_with_numbers` (the C09 clause for Syntax).
+The C09 clause for Syntax (`__rich_measure__`): `measure_maximum_sound` for the repaired variant, `old_measure_maximum_one_short_with_numbers` as found; re-exported in Props/C09.lean.
 
 Vocabulary (Lemmas/Syntax*.lean):
   `splitNL s`            `s.split("\n")`,
@@ -215,14 +216,17 @@ theorem gutter_wide_enough (cw : Char → Nat) (o : Opts) (found : Bool) (lex : 
     omega
   exact ⟨hw, Row.render_shape _ _ r hw⟩
 
-/-! ## `__rich_measure__` (the C09 clause "rendering at the reported maximum fits") -/
+/-! ## `__rich_measure__` (the C09 clause "rendering at the reported maximum fits")
 
-/-- Without line numbers the clause holds: every row takes at most `code_width` cells, which is the reported maximum when
-`code_width` is given, and one less than it otherwise. -/
-theorem measure_maximum_fits_without_numbers (cw : Char → Nat) (hsp : cw ' ' = 1) (h2 : ∀ c, cw c ≤ 2)
+`measureV short`: `short = true` is rich 9.10.0 as found, `short = false` the repaired variant
+(pending_fixes/C09-syntax-measure-one-short.diff: `+ 1` for the blank after the line number). -/
+
+/-- Without line numbers the clause holds in either variant: every row takes at most `code_width` cells, which is the reported
+maximum when `code_width` is given, and one less than it otherwise. -/
+theorem measure_maximum_fits_without_numbers (cw : Char → Nat) (hsp : cw ' ' = 1) (h2 : ∀ c, cw c ≤ 2) (short : Bool)
     (o : Opts) (found : Bool) (lex : List Char → List Line) (code : List Char) (hn : o.lineNumbers = false)
     (rows : List Line) (hr : plainRows cw false o found lex code = .ok rows) :
-    ∀ r ∈ rows, cellLen cw r ≤ (measure o code o.maxWidth).2 := by
+    ∀ r ∈ rows, cellLen cw r ≤ (measureV short o code o.maxWidth).2 := by
   intro r hrow
   unfold plainRows at hr
   cases hh : highlight false found (lex (expandTabs o.tabSize (shownCode o code))) (expandTabs o.tabSize (shownCode o code)) o.lineRange with
@@ -237,25 +241,112 @@ theorem measure_maximum_fits_without_numbers (cw : Char → Nat) (hsp : cw ' ' =
       obtain ⟨l, _, rfl⟩ := List.mem_map.mp hrow
       have hle := fitLine_cellLen_le cw hsp h2 (codeWidthInt o code).toNat o.pad l
       have hncw : numbersColumnWidth o code = 0 := by simp [numbersColumnWidth, hn]
-      unfold Syntax.measure
+      unfold measureV
       cases hc : o.codeWidth with
-      | some w => simp only [codeWidthInt, hc, hncw] at hle ⊢; omega
+      | some w => simp only [codeWidthInt, hc, hncw, hn] at hle ⊢; omega
       | none => simp only [codeWidthInt, hc, hncw] at hle ⊢; omega
 
-/-- With line numbers and an explicit `code_width` the clause FAILS: the reported maximum `code_width + numbers_column_width`
-forgets the blank that follows the number, so every row whose code cell is full (every padded row, every line at least
-`code_width` long) is one character longer than the maximum.  (C09's subject; recorded here because the row shape is C17's.) -/
-theorem measure_maximum_one_short_with_numbers (cw : Char → Nat) (o : Opts) (found : Bool) (lex : List Char → List Line)
+/-- AS FOUND, with line numbers and an explicit `code_width` the clause FAILS: the reported maximum
+`code_width + numbers_column_width` forgets the blank that follows the number, so every row whose code cell is full (every
+padded row, every line at least `code_width` long) is one character longer than the maximum. -/
+theorem old_measure_maximum_one_short_with_numbers (cw : Char → Nat) (o : Opts) (found : Bool) (lex : List Char → List Line)
     (code : List Char) (h : Setting o found lex code) (hn : o.lineNumbers = true) (w : Nat) (hw : o.codeWidth = some w) :
     ∃ rows, numberedRows cw false false o found lex code = .ok rows ∧
       ∀ r ∈ rows, w ≤ r.body.length →
-        (measure o code o.maxWidth).2 < (r.render (numbersColumnWidth o code) o.legacyWindows).length := by
+        (measureV true o code o.maxWidth).2 < (r.render (numbersColumnWidth o code) o.legacyWindows).length := by
   obtain ⟨rows, he, hall⟩ := gutter_wide_enough cw o found lex code h hn
   refine ⟨rows, he, ?_⟩
   intro r hr hlen
   rw [(hall r hr).2.1]
-  simp only [Syntax.measure, hw]
+  simp only [measureV, hw, Bool.not_true, Bool.false_and, Bool.false_eq_true, if_false, Nat.add_zero]
   omega
+
+/-- The cells of a numbered row (cropping on: `options.no_wrap` off or word wrap on): `numbers_column_width + 1` for the
+gutter, then a code cell of at most `code_width` cells — exactly `code_width` when the background is not transparent
+(`pad`), because the cell is then padded. -/
+theorem numbered_row_cells (cw : Char → Nat) (h1 : ∀ c, GutterChar c → cw c = 1) (h2 : ∀ c, cw c ≤ 2)
+    (o : Opts) (found : Bool) (lex : List Char → List Line) (code : List Char) (h : Setting o found lex code)
+    (hn : o.lineNumbers = true) (hnc : noCrop o = false) :
+    ∃ rows, numberedRows cw false false o found lex code = .ok rows ∧
+      ∀ r ∈ rows,
+        cellLen cw (r.render (numbersColumnWidth o code) o.legacyWindows) = numbersColumnWidth o code + 1 + cellLen cw r.body ∧
+        cellLen cw r.body ≤ colWidth o code ∧ (o.pad = true → cellLen cw r.body = colWidth o code) := by
+  have hsp : cw ' ' = 1 := h1 ' ' (Or.inl rfl)
+  obtain ⟨rows, he, hgut⟩ := gutter_wide_enough cw o found lex code h hn
+  obtain ⟨rows', he', hnum⟩ := numbers_are_line_numbers cw o found lex code h
+  have : rows' = rows := by rw [he] at he'; cases he'; rfl
+  subst this
+  refine ⟨rows', he, ?_⟩
+  intro r hr
+  obtain ⟨_, ⟨l, _, hbody⟩, _⟩ := hnum r hr
+  rw [hnc] at hbody
+  refine ⟨Row.render_cells cw h1 _ _ r (hgut r hr).1, ?_, ?_⟩
+  · rw [hbody]; exact fitLine_cellLen_le cw hsp h2 _ _ l
+  · intro hp
+    rw [hbody, hp]
+    unfold fitLine
+    simp only [Bool.false_eq_true, if_false, if_true]
+    by_cases ha : cellLen cw l < colWidth o code
+    · simp only [ha, if_true]
+      rw [cellLen_append, cellLen_replicate, hsp]; omega
+    · simp only [ha, if_false]
+      by_cases hb : cellLen cw l > colWidth o code
+      · simp only [hb, if_true]
+        exact (setCellSize_exact cw hsp h2 l _).1
+      · simp only [hb, if_false]; omega
+
+/-- REPAIRED, the sound statement: with line numbers and an explicit `code_width`, every rendered row takes at most the
+reported maximum `code_width + numbers_column_width + 1` — and exactly that many cells when the background is not transparent.
+Hypotheses the render path needs: cropping on (`options.no_wrap` off, or word wrap on), gutter characters and blanks one cell
+wide, no character wider than two cells. -/
+theorem measure_maximum_sound (cw : Char → Nat) (h1 : ∀ c, GutterChar c → cw c = 1) (h2 : ∀ c, cw c ≤ 2)
+    (o : Opts) (found : Bool) (lex : List Char → List Line) (code : List Char) (h : Setting o found lex code)
+    (hn : o.lineNumbers = true) (hnc : noCrop o = false) (w : Nat) (hw : o.codeWidth = some w) :
+    ∃ rows, numberedRows cw false false o found lex code = .ok rows ∧
+      ∀ r ∈ rows,
+        cellLen cw (r.render (numbersColumnWidth o code) o.legacyWindows) ≤ (measureV false o code o.maxWidth).2 ∧
+        (o.pad = true →
+          cellLen cw (r.render (numbersColumnWidth o code) o.legacyWindows) = (measureV false o code o.maxWidth).2) := by
+  obtain ⟨rows, he, hall⟩ := numbered_row_cells cw h1 h2 o found lex code h hn hnc
+  refine ⟨rows, he, ?_⟩
+  intro r hr
+  obtain ⟨hc, hle, heq⟩ := hall r hr
+  have hcol : colWidth o code = w := by simp [colWidth, codeWidthInt, hw]
+  have hmax : (measureV false o code o.maxWidth).2 = w + numbersColumnWidth o code + 1 := by
+    simp [measureV, hw, hn]
+  rw [hc, hmax]
+  exact ⟨by omega, fun hp => by have := heq hp; omega⟩
+
+/-- … and without an explicit `code_width` (maximum = the width offered), as soon as the gutter and its blank fit:
+rows take at most the width offered (exactly, on a non-transparent background). -/
+theorem measure_maximum_sound_auto (cw : Char → Nat) (h1 : ∀ c, GutterChar c → cw c = 1) (h2 : ∀ c, cw c ≤ 2) (short : Bool)
+    (o : Opts) (found : Bool) (lex : List Char → List Line) (code : List Char) (h : Setting o found lex code)
+    (hn : o.lineNumbers = true) (hnc : noCrop o = false) (hw : o.codeWidth = none)
+    (hroom : numbersColumnWidth o code + 1 ≤ o.maxWidth) :
+    ∃ rows, numberedRows cw false false o found lex code = .ok rows ∧
+      ∀ r ∈ rows,
+        cellLen cw (r.render (numbersColumnWidth o code) o.legacyWindows) ≤ (measureV short o code o.maxWidth).2 ∧
+        (o.pad = true →
+          cellLen cw (r.render (numbersColumnWidth o code) o.legacyWindows) = (measureV short o code o.maxWidth).2) := by
+  obtain ⟨rows, he, hall⟩ := numbered_row_cells cw h1 h2 o found lex code h hn hnc
+  refine ⟨rows, he, ?_⟩
+  intro r hr
+  obtain ⟨hc, hle, heq⟩ := hall r hr
+  have hcol : colWidth o code = o.maxWidth - numbersColumnWidth o code - 1 := by
+    simp only [colWidth, codeWidthInt, hw]; omega
+  have hmax : (measureV short o code o.maxWidth).2 = o.maxWidth := by simp [measureV, hw]
+  rw [hc, hmax]
+  exact ⟨by omega, fun hp => by have := heq hp; omega⟩
+
+/-- minimum ≤ maximum, in either variant: always with an explicit `code_width`; otherwise as soon as the width offered
+holds the numbers column. -/
+theorem measure_minimum_le_maximum (short : Bool) (o : Opts) (code : List Char) (maxWidth : Nat)
+    (h : o.codeWidth = none → numbersColumnWidth o code ≤ maxWidth) :
+    (measureV short o code maxWidth).1 ≤ (measureV short o code maxWidth).2 := by
+  unfold measureV
+  cases hc : o.codeWidth with
+  | some w => simp only; omega
+  | none => exact h hc
 
 /-! ## Indent guides only overdraw leading spaces -/
 
